@@ -86,6 +86,51 @@ def operand_arrays(ub, vb, coef):
     return arrs
 
 
+_CURRENT = [None]
+_FORMS = {}
+_LATE = {'on': False, 'ev': None}
+
+
+def _dispatch(u, v, w):
+    return _CURRENT[0].form(u, v, w)
+
+
+def persistent_form(nthreads, cplx):
+    """ONE BilinearForm object per (thread count, dtype), reused across all scenarios (shapes): a form object that
+    keeps state between assemblies (cached chunking, cached parameters) is exercised by the scenario stream itself."""
+    import skfem as fem
+    key = (nthreads, cplx)
+    if key not in _FORMS:
+        kw = {'dtype': np.complex128} if cplx else {}
+        _FORMS[key] = fem.BilinearForm(_dispatch, nthreads=nthreads, **kw)
+    return _FORMS[key]
+
+
+def install_delayed_threads():
+    """Worker threads created by the assembler can be held at the very beginning of run() until the caller reaches
+    join() ('late start' schedules).  Installed from the harness on the module attribute; no source hook."""
+    import skfem.assembly.form.bilinear_form as bf
+    if getattr(bf.Thread, '_verif_delayed', False):
+        return
+
+    class DelayedThread(threading.Thread):
+        _verif_delayed = True
+
+        def run(self):
+            ev = _LATE['ev']
+            if _LATE['on'] and ev is not None:
+                ev.wait(1.0)
+            super().run()
+
+        def join(self, timeout=None):
+            ev = _LATE['ev']
+            if ev is not None:
+                ev.set()
+            return super().join(timeout)
+
+    bf.Thread = DelayedThread
+
+
 class Gate:
     """Forces an interleaving onto the worker threads from inside the integrand callback."""
 
@@ -145,7 +190,7 @@ def _thread_no(th):
     return int(m.group(1)) if m else 0
 
 
-def run_schedule(shape, nthreads, schedule, stall=0, timeout=6.0, cplx=False):
+def run_schedule(shape, nthreads, schedule, stall=0, timeout=6.0, cplx=False, late=False):
     """Force `schedule` (list of 1-based worker indices) onto BilinearForm(nthreads).assemble.  Returns the event."""
     import skfem as fem
     ub, vb = bases(shape)
@@ -167,9 +212,15 @@ def run_schedule(shape, nthreads, schedule, stall=0, timeout=6.0, cplx=False):
     gate.cplx = cplx
     out = {}
 
+    install_delayed_threads()
+    _LATE['on'] = bool(late)
+    _LATE['ev'] = threading.Event()
+    _CURRENT[0] = gate
+    form = persistent_form(nthreads, cplx)
+
     def asm():
         try:
-            out['res'] = fem.BilinearForm(gate.form, nthreads=nthreads, **fkw)._assemble(ub, vb, c=coef)
+            out['res'] = form._assemble(ub, vb, c=coef)
         except BaseException as exc:          # observation
             out['err'] = type(exc).__name__
         with gate.cv:
@@ -258,7 +309,8 @@ def execute(rec):
     if _TIMEOUTS[0] >= 5:
         # the assembler hangs under forced schedules: do not spend the budget on more of the same
         return []
-    ev = run_schedule(rec['shape'], rec['nthreads'], rec['sched'], rec.get('stall', 0), cplx=bool(rec.get('cplx')))
+    ev = run_schedule(rec['shape'], rec['nthreads'], rec['sched'], rec.get('stall', 0), cplx=bool(rec.get('cplx')),
+                      late=bool(rec.get('late')))
     if ev['err'] == 'Timeout':
         _TIMEOUTS[0] += 1
     return [ev]
@@ -349,7 +401,7 @@ def random_schedules(tier, seed):
         sched = [int(v) for v in rng.permutation(toks)]
         stall = int(rng.integers(1, len(sched) + 1)) if k % 3 == 0 else 0
         recs.append({'driver': 'threads', 'shape': shape, 'nthreads': nth, 'sched': sched, 'stall': stall,
-                     'family': 'random', 'cplx': int(k % 5 == 4)})
+                     'family': 'random', 'cplx': int(k % 5 == 4), 'late': int(k % 4 == 1)})
     return recs
 
 
